@@ -3,6 +3,10 @@
 Forward (solver): for every accepted line class and every candidate b with symbolic numbers, the real
 decoder accepts b and consumes exactly len(b) bytes for all number values.  Text layer (witnesses, labelled
 so): asm(str(dis(b))) contains b.  See vf/checks/c02.py.
+Converse (solver): on every path of the symbolic decoder exploration the real Intel rendering (render mode: symbolic
+numbers as placeholder numerals) goes back through the real parser and the original bytes must be among the
+candidates for ALL byte values of the path; reported only for canonical encodings (GNU as reproduces the bytes from
+the rendering).  See vf/checks/c09.py / vf/x86/roundtrip.py.
 """
 import sys
 from vf.checks import c02
